@@ -460,7 +460,11 @@ func (val *Valuation) walkFrame(f *wframe, start, from *ssa.BasicBlock, depth in
 			}
 			// follow a selected static callee
 			if call, ok := in.(*ssa.Call); ok && val.Enter != nil && depth < 6 {
-				if g := call.Call.StaticCallee(); g != nil && g.Blocks != nil && val.Enter(g) && !onStack(f, g) {
+				g := call.Call.StaticCallee()
+				if g != nil && g.Blocks == nil && Origin(g) != nil && Origin(g).Blocks != nil {
+					g = Origin(g) // an instantiation called from generic code: its generic body
+				}
+				if g != nil && g.Blocks != nil && val.Enter(g) && !onStack(f, g) {
 					sub := newFrame(g, f, call.Call.Args)
 					if val.bind == nil {
 						val.bind = map[*ssa.Parameter]boundArg{}
